@@ -18,6 +18,8 @@ pub enum Payload {
     Str,
     Fmt,
     Any,
+    /// a formatted message of a few thousand bytes (its LAST token is what the caller must still see)
+    Long,
 }
 impl Payload {
     pub fn name(self) -> &'static str {
@@ -25,12 +27,14 @@ impl Payload {
             Payload::Str => "str",
             Payload::Fmt => "fmt",
             Payload::Any => "any",
+            Payload::Long => "long",
         }
     }
     pub fn from_name(s: &str) -> Payload {
         match s {
             "fmt" => Payload::Fmt,
             "any" => Payload::Any,
+            "long" => Payload::Long,
             _ => Payload::Str,
         }
     }
@@ -40,7 +44,11 @@ pub fn token_for(n: u64, p: Payload) -> Option<String> {
         Payload::Str => Some(STATIC_TOKENS[(n % 32) as usize].to_string()),
         Payload::Fmt => Some(format!("TOKFMT_{}_x", n)),
         Payload::Any => None,
+        Payload::Long => Some(format!("TOKEND_{}_x", n)),
     }
+}
+pub fn long_message(n: u64) -> String {
+    format!("TOKLONG_{}_{}_TOKEND_{}_x", n, "long panic message ".repeat(40 + (n % 7) as usize * 30), n)
 }
 
 #[derive(Default)]
@@ -112,6 +120,7 @@ pub fn fault_point(name: &str) {
             Payload::Str => std::panic::panic_any(STATIC_TOKENS[(n % 32) as usize]),
             Payload::Fmt => panic!("TOKFMT_{}_x", n),
             Payload::Any => std::panic::panic_any(NonString(n)),
+            Payload::Long => panic!("{}", long_message(n)),
         }
     }
 }
